@@ -249,7 +249,12 @@ func runC17(c *Ctx) {
 				}
 			}
 			call := h.Node.(*ast.CallExpr)
-			acc := len(core.CallsTo(sinfo, call.Args[0], false, "strings.Builder.String")) == 1
+			acc := false
+			for _, x := range expand(cg, call.Args[0], 2) { // directly or through a local (`buffered := sb.String()`)
+				if len(core.CallsTo(sinfo, x, false, "strings.Builder.String")) == 1 {
+					acc = true
+				}
+			}
 			c.Check("C17-R1", cb.Key()+" tool calls parsed from the accumulated text on every chunk", c.Pos(call), bad == "" && acc, "parseToolCalls is conditioned on "+bad+": the streamed and the non-streamed result differ for outputs split differently")
 		}
 		// non-stream consumer
